@@ -311,6 +311,11 @@ func (c *c15Engine) runOn(g gdbi.GraphInterface, q []c01Stmt) c01Result {
 		return c01Result{compileErr: true}
 	}
 	out := RunOn(g, stmts, c.eng.Work, 30*time.Second)
+	if out.TimedOut {
+		// a loaded machine can stall a run that normally takes milliseconds: one retry with a
+		// deadline only a real hang exceeds
+		out = RunOn(g, stmts, c.eng.Work, 150*time.Second)
+	}
 	if out.Err != nil {
 		return c01Result{compileErr: true}
 	}
@@ -457,7 +462,7 @@ func (c *c15Engine) exec(op map[string]interface{}) map[string]interface{} {
 
 // ---------- generators ----------
 
-var c15RowIDs = []string{"1", "2", "3", "4", "x"}
+var c15RowIDs = []string{"1", "2", "3", "12", "x", "4"}
 
 // link field values: ids of rows, dangling ids, empty, and (handled by the caller) missing / non-string
 func c15LinkVal(r *rand.Rand) interface{} {
@@ -471,7 +476,7 @@ func c15LinkVal(r *rand.Rand) interface{} {
 	case 3:
 		return nil // JSON null: not a string
 	}
-	return Pick(r, c15RowIDs[:4])
+	return Pick(r, c15RowIDs[:5])
 }
 
 // c15GenWorld: 1–4 vertex tables (several may share a label or a table), 0–4 edge types over 1–3
@@ -483,6 +488,10 @@ func c15GenWorld(r *rand.Rand, kind int) c15World {
 	prefixes := []string{"A:", "B:", "C:", "D:"}
 	if kind == 3 {
 		prefixes = []string{"A", "AB", "B", "A1"}
+	}
+	rowIDs := c15RowIDs
+	if kind == 4 { // ids with '-' (open finding C15-edge-id-dash: E(id) cannot find them)
+		rowIDs = []string{"1", "a-b", "3", "u-1-2", "x", "4"}
 	}
 	nv := 1 + r.Intn(4)
 	if kind == 0 {
@@ -498,9 +507,9 @@ func c15GenWorld(r *rand.Rand, kind int) c15World {
 			if kind == 0 {
 				n = 3
 			}
-			ids := r.Perm(len(c15RowIDs))
+			ids := r.Perm(len(rowIDs))
 			for j := 0; j < n; j++ {
-				id := c15RowIDs[ids[j]]
+				id := rowIDs[ids[j]]
 				if r.Intn(25) == 0 {
 					id = "" // a row whose id is empty
 				}
@@ -551,6 +560,9 @@ func c15GenWorld(r *rand.Rand, kind int) c15World {
 			}
 			if j == 0 && r.Intn(12) != 0 {
 				d["f"], d["t"] = Pick(r, c15RowIDs[:4]), Pick(r, c15RowIDs[:4])
+			}
+			if kind == 4 && j < 3 {
+				d["f"], d["t"] = Pick(r, rowIDs[:4]), Pick(r, rowIDs[:4])
 			}
 			if kind == 0 {
 				switch j {
@@ -779,7 +791,7 @@ func c15Gen(r *Run) {
 	c := &c15Engine{eng: eng}
 	defer c.stop()
 	thorough := r.Tier == "thorough"
-	budget := 45 * time.Second
+	budget := 30 * time.Second
 	nworlds, nrand := 40, 12
 	if thorough {
 		budget = 8 * time.Minute
@@ -848,6 +860,8 @@ func c15Gen(r *Run) {
 			kind = 1
 		case wi%10 == 9:
 			kind = 3
+		case wi%10 == 5:
+			kind = 4
 		}
 		w := c15GenWorld(r.Rng, kind)
 		op := w.toOp()
